@@ -216,10 +216,10 @@ def tasks(tier, seed):
     t = []
     for i in range(2 if not full else 8):
         t.append(('second_scan', dict(per_class=5 if not full else 30, nkeys=2 if not full else 4)))
-    for i in range(6 if not full else 12):
-        t.append(('hyp_pvv', dict(n=150 if not full else 1500)))
-    for i in range(3 if not full else 8):
-        t.append(('hyp_keys', dict(n=150 if not full else 1500)))
+    for i in range(8 if not full else 12):
+        t.append(('hyp_pvv', dict(n=300 if not full else 1500)))
+    for i in range(6 if not full else 8):
+        t.append(('hyp_keys', dict(n=300 if not full else 1500)))
     return t
 
 
